@@ -260,6 +260,32 @@ func eval(c Case) (v evid.Verdict, trivial bool, outcome string) {
 }
 
 func eval1(c Case) (v evid.Verdict, trivial bool, outcome string) {
+	// every payload handed to the library is the front of a longer buffer whose rest is filled with a pattern: a callee
+	// that appends to the caller's slice writes into memory that is not its own
+	var guards [][]byte
+	var glens []int
+	gclone := func(b []byte) []byte {
+		full := make([]byte, len(b)+48)
+		copy(full, b)
+		for i := len(b); i < len(full); i++ {
+			full[i] = 0xa5
+		}
+		guards, glens = append(guards, full), append(glens, len(b))
+		return full[:len(b)]
+	}
+	defer func() {
+		if !v.OK {
+			return
+		}
+		for gi, full := range guards {
+			for i := glens[gi]; i < len(full); i++ {
+				if full[i] != 0xa5 {
+					v = evid.Fail("writes-beyond-payload:"+c.Kind, "the library wrote into the caller's buffer behind the payload slice it was given (payload %d octets, offset %d behind its end now holds %#02x; variant %s)", glens[gi], i-glens[gi], full[i], c.Variant)
+					return
+				}
+			}
+		}
+	}()
 	v = evid.SafeEval(func() evid.Verdict {
 		if c.Kind != gsstok.KindMIC && c.Kind != gsstok.KindWrap {
 			return evid.Fail("harness", "bad kind %q", c.Kind)
@@ -299,7 +325,7 @@ func eval1(c Case) (v evid.Verdict, trivial bool, outcome string) {
 			}
 			var got []byte
 			if c.Kind == gsstok.KindMIC {
-				t, err := gssapi.NewInitiatorMICToken(clone(payload), ek)
+				t, err := gssapi.NewInitiatorMICToken(gclone(payload), ek)
 				if err != nil {
 					return evid.Fail("newinit:mic:error", "NewInitiatorMICToken(%d bytes, etype %d): %v", len(payload), c.EType, err)
 				}
@@ -307,7 +333,7 @@ func eval1(c Case) (v evid.Verdict, trivial bool, outcome string) {
 					return evid.Fail("newinit:mic:error", "Marshal of NewInitiatorMICToken: %v", err)
 				}
 			} else {
-				t, err := gssapi.NewInitiatorWrapToken(clone(payload), ek)
+				t, err := gssapi.NewInitiatorWrapToken(gclone(payload), ek)
 				if err != nil {
 					return evid.Fail("newinit:wrap:error", "NewInitiatorWrapToken(%d bytes, etype %d): %v", len(payload), c.EType, err)
 				}
@@ -337,7 +363,7 @@ func eval1(c Case) (v evid.Verdict, trivial bool, outcome string) {
 				return evid.Fail("harness", "build-rrc is a Wrap variant")
 			}
 			rrc := uint16(c.A)
-			l := newLib(c.Kind, c.Flags, c.Seq, clone(payload), uint16(ckLen))
+			l := newLib(c.Kind, c.Flags, c.Seq, gclone(payload), uint16(ckLen))
 			l.w.RRC = rrc
 			if err := l.setCksum(ek, c.Usage); err != nil {
 				return evid.Fail("build:wrap:setchecksum-error", "SetCheckSum(etype %d, usage %d, RRC %d): %v", c.EType, c.Usage, rrc, err)
@@ -367,7 +393,7 @@ func eval1(c Case) (v evid.Verdict, trivial bool, outcome string) {
 			}
 			return evid.Pass()
 		case "build":
-			l := newLib(c.Kind, c.Flags, c.Seq, clone(payload), uint16(ckLen))
+			l := newLib(c.Kind, c.Flags, c.Seq, gclone(payload), uint16(ckLen))
 			if err := l.setCksum(ek, c.Usage); err != nil {
 				return evid.Fail("build:"+c.Kind+":setchecksum-error", "SetCheckSum(etype %d, usage %d): %v", c.EType, c.Usage, err)
 			}
@@ -401,7 +427,7 @@ func eval1(c Case) (v evid.Verdict, trivial bool, outcome string) {
 				return evid.Fail("roundtrip:"+c.Kind+":"+f, "Unmarshal(Marshal(t)) returns a different %s: mic=%+v wrap=%+v", f, l2.m, l2.w)
 			}
 			if c.Kind == gsstok.KindMIC {
-				l2.setPayload(clone(payload)) // a MIC token does not carry the message
+				l2.setPayload(gclone(payload)) // a MIC token does not carry the message
 			}
 			if ok, err := l2.verify(ek, c.Usage); !ok {
 				return evid.Fail("roundtrip:"+c.Kind+":verify-false", "Verify after Unmarshal(Marshal(t)) = false (%v)", err)
@@ -417,7 +443,7 @@ func eval1(c Case) (v evid.Verdict, trivial bool, outcome string) {
 				return evid.Fail("decode:"+c.Kind+":"+f, "Unmarshal of %x decodes a wrong %s: mic=%+v wrap=%+v", refTok, f, l.m, l.w)
 			}
 			if c.Kind == gsstok.KindMIC {
-				l.setPayload(clone(payload))
+				l.setPayload(gclone(payload))
 			}
 			if ok, err := l.verify(ek, c.Usage); !ok {
 				return evid.Fail("reject-genuine:"+c.Kind+":verify", "Verify of a conformant token %x (etype %d usage %d) = false: %v", refTok, c.EType, c.Usage, err)
@@ -489,7 +515,7 @@ func eval1(c Case) (v evid.Verdict, trivial bool, outcome string) {
 				return evid.Fail(sig, "Unmarshal(expectFromAcceptor=%v) accepted the %s presentation\n%x\nof the token\n%x", expectDir, c.Variant, pres, refTok)
 			}
 			if c.Kind == gsstok.KindMIC {
-				l.setPayload(clone(payload))
+				l.setPayload(gclone(payload))
 			}
 			ok, _ := l.verify(ek, c.Usage)
 			if !ok {
@@ -557,7 +583,7 @@ func eval1(c Case) (v evid.Verdict, trivial bool, outcome string) {
 				}
 			}
 			// (1) library-built token: checksum computed by SetCheckSum, then the field changes
-			l := newLib(c.Kind, c.Flags, c.Seq, clone(payload), uint16(ckLen))
+			l := newLib(c.Kind, c.Flags, c.Seq, gclone(payload), uint16(ckLen))
 			if c.Variant != "nocksum" {
 				if err := l.setCksum(ek, c.Usage); err != nil {
 					return evid.Fail("build:"+c.Kind+":setchecksum-error", "SetCheckSum(etype %d, usage %d): %v", c.EType, c.Usage, err)
@@ -579,7 +605,7 @@ func eval1(c Case) (v evid.Verdict, trivial bool, outcome string) {
 				return evid.Fail("reject-genuine:"+c.Kind+":unmarshal", "Unmarshal of a conformant token %x: %v", refTok, err)
 			}
 			if c.Kind == gsstok.KindMIC {
-				l2.setPayload(clone(payload))
+				l2.setPayload(gclone(payload))
 			}
 			if mutate != nil {
 				mutate(l2)
